@@ -197,6 +197,11 @@ func genTx(pr *histProfile) func(t *rapid.T) hTx {
 		case "param":
 			tx.Key = rapid.SampledFrom(append([]string{"nosuch/Key", "pos/NoSuchKey", "malformed"}, simParamKeys...)).Draw(t, "pkey")
 			tx.Str = genParamValue(t, tx.Key)
+			if rapid.IntRange(0, 11).Draw(t, "pkeysuffix") == 0 {
+				// a key with a trailing segment: it is no entry of the access-control list, though its first two
+				// segments name a parameter
+				tx.Key += rapid.SampledFrom([]string{"/x", "/", "/" + tx.Key}).Draw(t, "pkeysuffixtext")
+			}
 			if pr.GovHandover && (tx.Key == "gov/acl" || tx.Key == "gov/daoOwner") && rapid.IntRange(0, 3).Draw(t, "handover") != 0 {
 				pool := simKeyPool(pr.seed)
 				if tx.Key == "gov/daoOwner" {
@@ -205,14 +210,30 @@ func genTx(pr *histProfile) func(t *rapid.T) hTx {
 					// a complete ACL with owners rotated among a few keys
 					base := rapid.IntRange(0, simPoolSize-1).Draw(t, "aclbase")
 					step := rapid.IntRange(0, 2).Draw(t, "aclstep")
-					str := `{"type":"gov/non_map_acl","value":[`
+					// ... complete (half of them), or well-formed but not what a genesis file would be allowed to say: one
+					// parameter left without an owner, an entry for a key that is no parameter, a second entry for the
+					// same key, an entry with an empty address
+					shape := rapid.SampledFrom([]string{"complete", "complete", "complete", "complete", "dropone", "dropone", "unknownkey", "duplicate", "emptyaddr"}).Draw(t, "aclshape")
+					victim := rapid.IntRange(0, len(simParamKeys)-1).Draw(t, "aclvictim")
+					var entries []string
 					for i, k := range simParamKeys {
-						if i > 0 {
-							str += ","
+						e := fmt.Sprintf(`{"acl_key":%q,"address":%q}`, k, pool[(base+i*step)%simPoolSize].Addr.String())
+						if i == victim {
+							switch shape {
+							case "dropone":
+								continue
+							case "unknownkey":
+								entries = append(entries, fmt.Sprintf(`{"acl_key":%q,"address":%q}`, rapid.SampledFrom([]string{"nosuch/Key", "nosuch/Key", "pos/NoSuchKey", "malformed"}).Draw(t, "aclunknown"), pool[base].Addr.String()))
+							case "duplicate":
+								entries = append(entries, e, fmt.Sprintf(`{"acl_key":%q,"address":%q}`, k, pool[(base+1)%simPoolSize].Addr.String()))
+								continue
+							case "emptyaddr":
+								e = fmt.Sprintf(`{"acl_key":%q,"address":""}`, k)
+							}
 						}
-						str += fmt.Sprintf(`{"acl_key":%q,"address":%q}`, k, pool[(base+i*step)%simPoolSize].Addr.String())
+						entries = append(entries, e)
 					}
-					tx.Str = str + "]}"
+					tx.Str = `{"type":"gov/non_map_acl","value":[` + strings.Join(entries, ",") + "]}"
 				}
 			}
 		case "dao":
